@@ -557,6 +557,24 @@ fn collections_history(prop: &'static str, rng: &mut Rng, it: usize, skip_refuse
         for _ in 0..steps {
             match rng.below(10) {
                 0 | 1 | 2 => {
+                    if let Coll::Fo(c) = &mut coll {
+                        if children.len() % 4 == 3 {
+                            // a whole batch goes in through Extend (a function without a contract)
+                            let k = 2 + children.len() % 3;
+                            let mut batch = vec![];
+                            for _ in 0..k {
+                                let id = children.len();
+                                let st: St = Rc::new(ChildSt::default());
+                                children.push(st.clone());
+                                model.push_back(id);
+                                batch.push(Fut::new(id, st));
+                            }
+                            pushes += k;
+                            hist.push(format!("extend({k} futures: {}..{})", children.len() - k, children.len()));
+                            c.extend(batch);
+                            continue;
+                        }
+                    }
                     let front = coll.ordered() && rng.below(3) == 0;
                     let id = children.len();
                     let st: St = Rc::new(ChildSt::default());
@@ -986,8 +1004,9 @@ fn run_quiescence_wrappers(prop: &'static str) {
                 if r.is_pending() && !woke { quiet_at = Some(k); }
                 else if quiet_at.is_some() { quiet_at = None; }
             }
-            let tail_noisy = trail.iter().rev().take(3).all(|t| t.ends_with("true)"));
-            if held > 0 && (quiet_at.is_none() || tail_noisy) {
+            let tail_noisy = trail.iter().rev().take(3).all(|t| t.starts_with("poll -> Pending") && t.ends_with("true)"));
+            let _ = quiet_at;
+            if held > 0 && tail_noisy {
                 report(&Fail { prop, scenario: format!("{}: {nsrc} sources, the last {ending} end at once, the others sleep; nobody invokes a waker", if unb { "MergeUnbounded" } else { "MergeBounded" }),
                     history: trail.iter().rev().take(6).rev().cloned().collect(), what: format!("after {} polls the merge still wakes its task although every held source sleeps (bound: held + 2)", bound + 6) });
             }
@@ -1015,7 +1034,7 @@ fn run_quiescence_wrappers(prop: &'static str) {
                     let woke = tw.0.load(Ordering::SeqCst) > before;
                     trail.push(format!("poll -> {} (task woken: {woke})", if r.is_pending() { "Pending" } else { "Ready" }));
                 }
-                if trail.iter().rev().take(3).all(|t| t.ends_with("true)")) {
+                if trail.iter().rev().take(3).all(|t| t.starts_with("poll -> Pending") && t.ends_with("true)")) {
                     report(&Fail { prop, scenario: format!("{}({n}): {jobs} sleeping jobs pulled, upstream pending for ever; nobody invokes a waker", names[which]),
                         history: trail.iter().rev().take(6).rev().cloned().collect(), what: format!("after {} polls the adapter still wakes its task on every poll although everything it holds sleeps", jobs + 8) });
                 }
@@ -1540,6 +1559,8 @@ struct SrcSt {
     moved: Cell<bool>,
     /// what the source reports as its own size_hint: 0 = the trait default (0, None), 1 = exact, 2 = (items left, None)
     hint_mode: Cell<usize>,
+    /// the source ends at its next poll, whatever its script says
+    end_now: Cell<bool>,
     /// pushed, or woken through its own waker, and not polled since
     fresh: Cell<bool>,
 }
@@ -1565,7 +1586,7 @@ impl Stream for Src {
             st.polled_after_end.set(true);
             return Poll::Ready(None);
         }
-        let next = if st.always_ready.get() { Up::Item } else { st.script.borrow_mut().pop_front().unwrap_or(Up::End) };
+        let next = if st.end_now.get() { Up::End } else if st.always_ready.get() { Up::Item } else { st.script.borrow_mut().pop_front().unwrap_or(Up::End) };
         match next {
             Up::Item | Up::ErrItem => {
                 let s = st.seq.get();
@@ -1597,7 +1618,7 @@ fn mk_src(id: usize, rng: &mut Rng) -> (Src, Rc<SrcSt>) {
         script.push_back(if rng.below(3) == 0 { Up::Pending } else { Up::Item });
     }
     script.push_back(Up::End);
-    let st = Rc::new(SrcSt { id, script: RefCell::new(script), seq: Cell::new(0), ended: Cell::new(false), polled_after_end: Cell::new(false), polls: Cell::new(0), waker: RefCell::new(None), dropped: Cell::new(0), always_ready: Cell::new(false), fresh: Cell::new(true), addr: Cell::new(0), moved: Cell::new(false), hint_mode: Cell::new(id % 3) });
+    let st = Rc::new(SrcSt { id, script: RefCell::new(script), seq: Cell::new(0), ended: Cell::new(false), polled_after_end: Cell::new(false), polls: Cell::new(0), waker: RefCell::new(None), dropped: Cell::new(0), always_ready: Cell::new(false), fresh: Cell::new(true), addr: Cell::new(0), moved: Cell::new(false), hint_mode: Cell::new(id % 3), end_now: Cell::new(false) });
     (Src { st: st.clone() }, st)
 }
 fn run_merge(prop: &'static str, seed: u64, iters: usize) {
@@ -2013,43 +2034,42 @@ fn run_alloc_unbounded(prop: &'static str) {
             report(&Fail { prop, scenario, history: vec![format!("allocations in the first 30 cycles: {:?}", &per[..30])], what: format!("{late} allocations in cycles 21..200 with at most {} futures held", parked + 2) });
         }
     }
-    // S3b: MergeUnbounded with four groups (32 + 64 + 128 ...): the 32 sources pushed first end late, the other 192 end together,
-    // so that several groups run dry within one poll call, the largest included
+    // S3b: MergeUnbounded with three groups (32 + 64 + 128): the second and the third group run dry within ONE poll call (their last
+    // sources end together) while the first group is still held - the largest group must be kept all the same
     {
         let mut rng = Rng(11);
         let mut m: MergeUnbounded<Src> = MergeUnbounded::new();
-        let mut keep = vec![];
         let mut id = 0usize;
         let mut per_cycle = vec![];
         for _cycle in 0..14 {
             let mut srcs = vec![];
-            let mut early = vec![];
-            for j in 0..224usize {
+            let mut sts = vec![];
+            for _ in 0..224usize {
                 let (s, st) = mk_src(id, &mut rng);
                 st.script.borrow_mut().clear();
-                for _ in 0..3 { st.script.borrow_mut().push_back(Up::Pending); }
-                st.script.borrow_mut().push_back(Up::End);
-                if j < 32 { for _ in 0..6 { st.script.borrow_mut().push_front(Up::Pending); } }
-                early.push(st.clone());
-                keep.push(st);
+                for _ in 0..100000 { st.script.borrow_mut().push_back(Up::Pending); }
+                sts.push(st);
                 srcs.push(s);
                 id += 1;
             }
             let mut a = 0usize;
             for s in srcs { measured!(a, m.push(s)); }
-            let mut guard = 0;
-            while early.iter().any(|st| !st.ended.get()) && guard < 400 {
-                guard += 1;
-                for st in early.iter() { if let Some(w) = st.waker.borrow().as_ref() { w.wake_by_ref(); } }
-                let r = measured!(a, Pin::new(&mut m).poll_next(&mut cx));
-                drop(r);
-            }
+            for _ in 0..8 { let r = measured!(a, Pin::new(&mut m).poll_next(&mut cx)); drop(r); }
+            // all of the second and third group but one source each end first ...
+            let end = |sel: &dyn Fn(usize) -> bool| { for (j, st) in sts.iter().enumerate() { if sel(j) { st.end_now.set(true); if let Some(w) = st.waker.borrow().as_ref() { w.wake_by_ref(); } } } };
+            end(&|j| j >= 32 && j != 95 && j != 223);
+            for _ in 0..10 { let r = measured!(a, Pin::new(&mut m).poll_next(&mut cx)); drop(r); }
+            // ... then the two stragglers end in the same call
+            end(&|j| j == 95 || j == 223);
+            for _ in 0..4 { let r = measured!(a, Pin::new(&mut m).poll_next(&mut cx)); drop(r); }
+            // finally the first group
+            end(&|j| j < 32);
             for _ in 0..6 { let r = measured!(a, Pin::new(&mut m).poll_next(&mut cx)); drop(r); }
             per_cycle.push(a);
         }
         let late: usize = per_cycle[6..].iter().sum();
         if late > 0 {
-            report(&Fail { prop, scenario: "MergeUnbounded: 14 cycles of push 224 pending sources / wake them all until they have ended (the 32 pushed first end six polls later than the others)".into(), history: vec![format!("allocations per cycle: {:?}", per_cycle)], what: format!("{late} allocations in cycles 7..14 at a constant peak of 224 sources") });
+            report(&Fail { prop, scenario: "MergeUnbounded: 14 cycles of push 224 pending sources; sources 32..224 end (the last one of the second and of the third group in the same poll call), then sources 0..32".into(), history: vec![format!("allocations per cycle: {:?}", per_cycle)], what: format!("{late} allocations in cycles 7..14 at a constant peak of 224 sources") });
         }
     }
     // S3: MergeUnbounded: cycles of push K sources that yield one item and end
